@@ -312,7 +312,24 @@ BAD_REQS = [(5, 0, 12, 16, 0, 0), (1, 0, 12, 6, 0, 0)]
 # PDUs <<opcode, length class 0 ok / 1 short / 2 long, label 0 honest / 1 wrong (confirm: 1 wrong TK, 2 flipped bit)>>
 PROTOCOL_PDUS = [(3, 0, 0), (3, 0, 1), (3, 1, 0), (4, 0, 0), (4, 0, 1), (4, 2, 0), (12, 0, 0), (12, 0, 1), (12, 1, 0),
                  (13, 0, 0), (13, 0, 1), (13, 1, 0)]
+# Probes appended to every generated behaviour (the generator's alphabet has no find / db inputs). C33 and C34 have
+# their own: C33 asks for every (EDIV,Rand) class, then lets the application store a bond under (0,0) for this peer
+# (that is where LESC bonds live) and asks again - "pairing completed on this connection AND a bond entry exists" -
+# and erases it again; C34 polls with encryption off / on / off / on / off, whatever the state the behaviour ended in.
 SUFFIX = ["find 0", "enc 1", "poll", "poll", "poll", "find 0", "find 3"]
+SUFFIXES = {"C33": ["find 0", "find 1", "find 2", "find 3", "find 4", "find 5", "db 0 0 1", "find 0", "db 0 0 0", "find 0"],
+            "C34": ["poll", "enc 1", "poll", "enc 0", "poll", "enc 1", "poll", "poll", "enc 0", "poll"]}
+# bond data base at the start of every execution: this peer has a bond under slot 1, another device has one under
+# every slot (the data base is not read by the managers before find_key, so what it holds only matters for the probes)
+PRE_THIS, PRE_OTHER = [1], [0, 1, 2, 3, 4, 5]
+
+
+def suffix(prop):
+    return SUFFIXES.get(prop, SUFFIX)
+
+
+def mask(slots):
+    return sum(1 << x for x in slots)
 
 
 def gen_inputs(c, k):
@@ -330,7 +347,7 @@ def gen_inputs(c, k):
         pdus = list(PROTOCOL_PDUS) + [(11, 0, 0), (1, 1, 0)]
         syncs = [-1, 0, 1] if (nc and k["kind"] == 1) else [-1]
         oobs = ["TRUE"] if k["kind"] == 0 else ["FALSE"]     # legacy OOB needs local data; LESC OOB is reached by the request's flag
-        return reqs, pdus, syncs, oobs, [], False, (6 if k["kind"] == 0 else 8)
+        return reqs, pdus, syncs, oobs, [], False, (7 if k["kind"] == 0 else 8)
     # thorough: every opcode 0..15, more length variants, encryption changes as inputs, both OOB settings, all answer timings
     pdus = list(PROTOCOL_PDUS) + [(3, 0, 2), (3, 2, 0), (4, 1, 0), (12, 2, 0), (13, 2, 0), (1, 1, 0), (1, 2, 0)]
     pdus += [(op, 0, 0) for op in (0, 2, 5, 6, 7, 8, 9, 10, 11, 14, 15)]
@@ -342,8 +359,9 @@ def tla_set(tuples):
 
 
 def tla_cfg(k, oob, sync):
-    return ('[kind |-> "%s", in |-> %d, out |-> %d, mitm |-> %s, bond |-> %s, oob |-> %s, sync |-> %d]'
-            % (KINDS[k["kind"]], k["in"], k["out"], "TRUE" if k["mitm"] else "FALSE", "TRUE" if k["bond"] else "FALSE", oob, sync))
+    return ('[kind |-> "%s", in |-> %d, out |-> %d, mitm |-> %s, bond |-> %s, oob |-> %s, sync |-> %d, pre |-> {%s}]'
+            % (KINDS[k["kind"]], k["in"], k["out"], "TRUE" if k["mitm"] else "FALSE", "TRUE" if k["bond"] else "FALSE", oob, sync,
+               ", ".join(str(x) for x in PRE_THIS)))
 
 
 def generate_behaviours(c, specdir, configs):
@@ -364,7 +382,7 @@ def generate_behaviours(c, specdir, configs):
     cfg = os.path.join(specdir, name + ".cfg")
     with open(cfg, "w") as f:
         f.write('CONSTANTS GConfigs <- RConfigs GReqsOf <- RReqsOf GDepthOf <- RDepthOf GPdus <- RPdus GFinds = {%s} GEnc = %s\n'
-                '  Enforce <- AllProps Configs <- NoRequests Requests <- NoRequests Opcodes <- NoOps LenClasses <- NoOps\n'
+                '  Enforce <- AllProps Configs <- NoRequests Requests <- NoRequests Opcodes <- NoOps LenClasses <- NoOps DbSlots <- NoOps\n'
                 'SPECIFICATION GSpec\nVIEW GView\nACTION_CONSTRAINT EmitEdge\nCHECK_DEADLOCK FALSE\n'
                 % (", ".join(str(x) for x in finds), "TRUE" if encs else "FALSE"))
     behs = vlib.generate(c, specdir, name + ".tla", cfg, workers=1, timeout=2400)
@@ -380,9 +398,10 @@ def generate_behaviours(c, specdir, configs):
     return res
 
 
-def script_of(b):
+def script_of(b, prop):
     lines = [" ".join(str(x) for x in op) for op in b]
-    return lines + SUFFIX
+    lines[0] += " %d %d" % (mask(PRE_THIS), mask(PRE_OTHER))          # reset <oob> <sync> <bonds of this peer> <of another peer>
+    return lines + suffix(prop)
 
 
 def out_kind(ev):
@@ -408,8 +427,10 @@ def sm_signature(prop, ev, ctx, k):
         return "%s:op=%s:lc=%s:label=%s:out=%s:phase=%s:mconf=%s:ea=%s:user=%s" % (
             e, ev.get("op", "-"), ev.get("lc", "-"), ev.get("label", "-"), o, ctx.get("phase"), ctx.get("mconf"), ctx.get("ea"), ctx.get("user"))
     if prop == "C33":
-        return "Find:which=%s:kid=%s:phase=%s:pairedOk=%s:fam=%s:dbsame=%s" % (
-            ev.get("which"), ev.get("kid"), ctx.get("phase"), ctx.get("pairedOk"), ctx.get("fam"), ev.get("dbsame"))
+        return "Find:which=%s:kid=%s:phase=%s:pairedOk=%s:fam=%s:dbsame=%s:bond=%s" % (
+            ev.get("which"), ev.get("kid"), ctx.get("phase"), ctx.get("pairedOk"), ctx.get("fam"), ev.get("dbsame"),
+            "app" if ev.get("which") in ctx.get("pre", []) else "lesc" if ctx.get("dbLesc") and ev.get("which") == 0
+            else "new" if ctx.get("dbNew") and ev.get("which") == 3 else "none")
     if prop == "C34":
         return "%s:%s:enc=%s:budget=%s:phase=%s" % (e, o, ctx.get("enc"), "+".join(sorted(ctx.get("budget", []))), ctx.get("phase"))
     return "status:%s:%s:alg=%s:user=%s:shown=%s:reported=%s:at=%s:%s" % (
@@ -445,7 +466,7 @@ def replay_ops(evs):
     for ev in evs:
         e = ev["e"]
         if e == "Reset":
-            ops.append("reset %d %d" % (int(ev["oob"]), ev["sync"]))
+            ops.append("reset %d %d %d %d" % (int(ev["oob"]), ev["sync"], mask(ev["pre"]), mask(ev["prex"])))
         elif e == "Req":
             ops.append("req %d %d %d %d %d %d" % (ev["io"], ev["oobf"], ev["auth"], ev["maxkey"], ev["idist"], ev["rdist"]))
         elif e == "Pdu":
@@ -458,6 +479,8 @@ def replay_ops(evs):
             ops.append("enc %d" % int(ev["on"]))
         elif e == "Find":
             ops.append("find %d" % ev["which"])
+        elif e == "Db":
+            ops.append("db %d %d %d" % (ev["peer"], ev["slot"], int(ev["on"])))
     return ops
 
 
@@ -468,7 +491,9 @@ def run_sm(c):
                       "pairing_yes_no_response& it may store)",
                       "link layer behaviour emulated as in link_layer.hpp: find_key on LL_ENC_REQ, is_encrypted()/pairing_status() "
                       "on encryption changes, l2cap_output polled at any time",
-                      "bond data base = harness object with one preset bond; security toolbox = tests/security_manager/test_sm.hpp"]
+                      "bond data base = harness object (application side): bonds of this peer / of another device under any "
+                      "(EDIV,Rand) class, stored and erased by the script, each with its own key value; it is read by the managers "
+                      "only in find_key; security toolbox = tests/security_manager/test_sm.hpp"]
     objs = crypto_objects(c)
     if c.replay:
         return replay_sm(c, objs)
@@ -489,11 +514,11 @@ def run_sm(c):
     for k, exe, bs in zip(configs, exes, behs):
         c.note("%s: %d behaviours (transition cover), %d inputs" % (cfg_name(k), len(bs), sum(len(b) for b in bs)))
         c.sample({"config": k, "behaviour": bs[len(bs) // 2]}, limit=8)
-        nparts = max(1, min(4, sum(len(b) + len(SUFFIX) for b in bs) // (25000 if c.quick else 60000)))
+        nparts = max(1, min(4, sum(len(b) + len(suffix(c.prop)) for b in bs) // (25000 if c.quick else 60000)))
         for i, part in enumerate(vlib.chunks(bs, nparts)):
             jobs.append((k, exe, "sm_%s_%d" % (cfg_name(k), i), part))
     with ThreadPoolExecutor(8) as ex:
-        traces = list(ex.map(lambda j: run_script(c, j[1], j[2], [l for b in j[3] for l in script_of(b)]), jobs))
+        traces = list(ex.map(lambda j: run_script(c, j[1], j[2], [l for b in j[3] for l in script_of(b, c.prop)]), jobs))
     owner = {tp: j[0] for tp, j in zip(traces, jobs)}
     verdicts = validate_sm(c, traces, c.prop)
     counts = {}
@@ -503,7 +528,7 @@ def run_sm(c):
     c.extra["configs"] = [cfg_name(k) for k in configs]
     c.extra["rule"] = ("behaviours = for every reachable state of SecurityManager (all guards on, depth bound %d) its shortest input "
                        "sequence followed by each input (transition cover), each followed by the probes %s"
-                       % (gen_inputs(c, configs[-1])[6], SUFFIX))
+                       % (gen_inputs(c, configs[-1])[6], suffix(c.prop)))
     c.exhaustive = False
 
 
